@@ -40,8 +40,11 @@ type Exec struct {
 
 // Explorer is a deviation-bounded DFS over schedules (iterative context bounding).
 type Explorer struct {
-	New      func() Harness
-	Bound    int
+	New   func() Harness
+	Bound int
+	// EnvBound > 0 gives non-default environment answers (injected faults) a budget of their own:
+	// up to EnvBound of them per execution, in addition to Bound preemptions. 0: they share Bound.
+	EnvBound int
 	MaxExec  int64                    // cap on executions (0 = none)
 	Deadline time.Time                // wall-clock cap (zero = none)
 	MaxSteps int                      // livelock horizon per execution
@@ -187,12 +190,13 @@ func (s *Sched) loop() int {
 				c = 0
 			}
 		}
-		pi := PointInfo{N: len(enabled), RunEnabled: runEnabled, Devs: s.devs}
+		pi := PointInfo{N: len(enabled), RunEnabled: runEnabled, Devs: s.devs, EnvDevs: s.envDevs}
 		if e := s.exp; e != nil && !e.NoCache && i >= len(s.prefix) && s.prunedAt < 0 {
 			key := s.stateKey()
 			pi.Key = key
-			left := e.Bound - s.devs
-			if old, ok := e.cache[key]; ok && old >= left {
+			// remaining budgets, packed; a cached entry prunes only if it dominates in both
+			left := (e.Bound-s.devs)<<8 | (e.EnvBound - s.envDevs)
+			if old, ok := e.cache[key]; ok && old>>8 >= left>>8 && old&0xff >= left&0xff {
 				s.prunedAt = i
 				e.CacheHits++
 			} else {
@@ -267,12 +271,18 @@ func (e *Explorer) explore(prefix []int, depth int) {
 			break
 		}
 		for alt := 1; alt < p.N; alt++ {
-			cost := p.Devs
-			if p.Env || p.RunEnabled {
-				cost++
-			}
-			if cost > e.Bound {
-				continue
+			if p.Env && e.EnvBound > 0 {
+				if p.EnvDevs+1 > e.EnvBound || p.Devs > e.Bound {
+					continue
+				}
+			} else {
+				cost := p.Devs
+				if p.Env || p.RunEnabled {
+					cost++
+				}
+				if cost > e.Bound {
+					continue
+				}
 			}
 			// Sharding: the SECOND-level subtrees are dealt round-robin (first-level subtrees differ in
 			// size by orders of magnitude; every shard runs the root and the first-level executions
